@@ -399,6 +399,38 @@ func c07(r *core.Run) {
 			if cal := c.Common().StaticCallee(); cal != nil && eventFunnels[cal] {
 				prm := fn.Params[1]
 				r.Check(validatedBy(prm, c, "isValidPath"), "P2", core.FuncName(fn), "subject-argument-validated(isValidPath)", p.InstrPos(c), "the announced auth subject passed isValidPath on the non-panicking edge", "the token-reset subject is published without validation")
+				// isValidPath accepts the empty path (a mux without prefix): the subject needs its own test
+				nonEmpty := false
+				if vf := p.Func("isValidPath"); vf != nil && !classOf(p, vf).EmptyAccept {
+					nonEmpty = true
+				}
+				for _, ed := range dominatingEdges(c) {
+					cnd, succ := ed.Norm()
+					bo, ok := cnd.(*ssa.BinOp)
+					if !ok {
+						continue
+					}
+					x, y := bo.X, bo.Y
+					if _, isC := x.(*ssa.Const); isC {
+						x, y = y, x
+					}
+					if sv, isC := core.ConstString(y); isC && sv == "" && x == ssa.Value(prm) {
+						if (bo.Op == token.EQL && succ == 1) || (bo.Op == token.NEQ && succ == 0) {
+							nonEmpty = true
+						}
+					}
+					if lc, isCall := x.(*ssa.Call); isCall && core.CalleeName(lc) == "builtin:len" && lc.Common().Args[0] == ssa.Value(prm) {
+						if k, isC := core.ConstInt(y); isC {
+							switch {
+							case k == 0 && ((bo.Op == token.EQL && succ == 1) || (bo.Op == token.NEQ && succ == 0) || (bo.Op == token.GTR && succ == 0) || (bo.Op == token.LEQ && succ == 1)):
+								nonEmpty = true
+							case k == 1 && ((bo.Op == token.LSS && succ == 1) || (bo.Op == token.GEQ && succ == 0)):
+								nonEmpty = true
+							}
+						}
+					}
+				}
+				r.Check(nonEmpty, "P2", core.FuncName(fn), "subject-argument-non-empty", p.InstrPos(c), "the announced auth subject was tested non-empty (the path validator accepts the empty path)", "the token-reset event can carry an empty subject: the path validator accepts \"\" (a mux without prefix) and no separate test rejects it, so system.tokenReset is published with a subject no auth request can be sent to")
 			}
 		}
 	}
